@@ -391,17 +391,37 @@ export function genWatch(rng, p) {
       files.push([A("file"), "cfg_v.ts", [A("var"), mk("{ retries: 3 }"), [A("src")]], [A("var"), mk('{ retries: 4, mode: "x" }'), [A("src")]], [A("var"), mk('"plain"'), [A("src")]], [A("var"), "const cfg = {;\nexport default cfg;\n", A("broken")]]);
     }
   }
+  // a declaration file that a NEW source file of the same base name shadows (`./sh_v` resolves to sh_v.d.ts or sh_v/index.ts
+  // until sh_v.ts is created: a fresh process then follows sh_v.ts); outside the Lean module model like the value module
+  let shadow = null;
+  if (rng.chance(1, 6)) {
+    const entry = files.find((f) => f[1] === "entry.ts");
+    if (entry) {
+      for (const v of entry.slice(2)) if (typeof v[1] === "string" && v[1] !== "@@ABSENT@@") v[1] = 'import { Sh } from "./sh_v";\n' + v[1].replace(/ \}>\(\);\n$/, ", ES: Sh }>();\n");
+      const low = rng.pick(["sh_v.d.ts", "sh_v/index.ts", "sh_v.tsx"]);
+      files.push([A("file"), low, [A("var"), "export type Sh = string;\n", [A("src")]], [A("var"), "export type Sh = string | null;\n", [A("src")]]]);
+      shadow = [A("file"), low === "sh_v.tsx" || rng.chance(1, 2) ? "sh_v.ts" : "sh_v.tsx", [A("var"), "@@ABSENT@@", [A("src")]], [A("var"), "export type Sh = number;\n", [A("src")]], [A("var"), "export type Sh = boolean[];\n", [A("src")]]];
+      if (low === "sh_v.tsx") shadow[1] = "sh_v.ts";
+      files.push(shadow);
+    }
+  }
   const ops = [];
   const n = 3 + rng.below(10);
-  const pickVar = (f) => (f === late ? 1 + rng.below(f.length - 3) : rng.below(f.length - 2));
+  const pickVar = (f) => (f === late || f === shadow ? 1 + rng.below(f.length - 3) : rng.below(f.length - 2));
   for (let i = 0; i < n; i++) {
     if (rng.chance(1, 3)) ops.push([A("r")]);
     else { const f = rng.pick(files); ops.push([A("u"), f[1], A(String(pickVar(f)))]); }
   }
   if (late) { ops.splice(1 + rng.below(ops.length), 0, [A("u"), late[1], A("1")], [A("r")]); ops.unshift([A("r")]); }
+  if (shadow) {
+    // nothing touches the new file before the first rebuild has followed the old target
+    const first = ops.findIndex((o) => head(o) === "u" && o[1] === shadow[1]);
+    if (first >= 0) ops.splice(first, 0, [A("r")]);
+    ops.splice(1 + rng.below(ops.length), 0, [A("u"), shadow[1], A("1")], [A("r")]); ops.unshift([A("r")]);
+  }
   ops.push([A("r")]);
   // a common end game: repair everything, rebuild
-  if (rng.chance(1, 2)) { for (const f of files) if (rng.chance(2, 3)) ops.push([A("u"), f[1], A(String(f === late ? 1 + rng.below(2) : rng.below(2)))]); ops.push([A("r")]); }
+  if (rng.chance(1, 2)) { for (const f of files) if (rng.chance(2, 3)) ops.push([A("u"), f[1], A(String(f === late || f === shadow ? 1 + rng.below(2) : rng.below(2)))]); ops.push([A("r")]); }
   return [[A("files"), ...files], [A("ops"), ...ops]];
 }
 
